@@ -186,6 +186,16 @@ CHECKS = {
         note='Partial: the "is rejected / is listed" direction (completeness) is established by the differential sweep, not by a theorem. Trusted: Lean kernel; standard axioms; '
              'the model of leftmost non-overlapping regex matching for these two patterns; openpyxl cell.row / column_letter.',
         technique='Lean 4 proof (scanner soundness, gate) over hand model + differential correspondence + independent oracle through the real file path', design='5/C19'),
+    'C18': dict(
+        text='Lean 4 theorems over the model of Excel.parse with openpyxl\'s padding contract as an explicit input: every cell is seen at the position at which it was yielded with the '
+             'value yielded, blank when it has none (read_coords); last_row is the number of rows, last_column bounds every row and is attained (sizes_spec); cells outside the '
+             'reported size read as blank (outside_size_blank); titles keep workbook order (titles_in_order); a constant text evaluates to the stored text (constant_text_value, '
+             'from C07). The repository\'s own logic here is an enumeration, so the theorems are thin by nature; the assurance is mostly Tie B: real .xlsx files with sparse '
+             'layouts, empty / far / offset sheets, every storable value type, formulas and array formulas, 1-8 sheets with hostile titles: every coordinate of the bounding '
+             'box (+2) through the executor vs openpyxl\'s normal mode and the generator\'s map; sizes; titles.',
+        note='Trusted: Lean kernel; standard axioms; openpyxl (reader, padding contract under reset_dimensions in read-only mode, type mapping) - validated against its own normal mode; '
+             'repr round trip of floats / date-times through the generated module (CPython).',
+        technique='Lean 4 proof over hand model with the reader contract as hypothesis + differential correspondence through real files', design='5/C18'),
 }
 
 WIP = set()   # built, proofs in progress: not claimed until green
